@@ -115,9 +115,9 @@ Proof. intros F. apply (fr_frame _ _ _ _ _ F). Qed.
 Lemma user_value_agree h h' o : (forall x, In x (reach h o) -> hget h' x = hget h x) -> user_value h' o = user_value h o.
 Proof.
   intros A. unfold user_value, get_user. rewrite (A o (reach_self _ _)).
-  destruct (hget h o) as [[| | |u|]|] eqn:Ho; try reflexivity.
+  destruct (hget h o) as [[| | |u| |pl]|] eqn:Ho; try reflexivity.
   unfold sl_get, get_strs. rewrite (A (sl_arr (hu_chans u))) by (eapply reach_ptr; [exact Ho|simpl; auto]).
-  destruct (hget h (sl_arr (hu_chans u))) as [[a| | | |]|]; simpl; try reflexivity.
+  destruct (hget h (sl_arr (hu_chans u))) as [[a| | | | |pl]|]; simpl; try reflexivity.
   destruct (hu_perms u) as [p|] eqn:Ep; [|reflexivity].
   unfold get_perms. rewrite (A p) by (eapply reach_ptr; [exact Ho|simpl; rewrite Ep; simpl; auto]). reflexivity.
 Qed.
@@ -125,7 +125,7 @@ Qed.
 Lemma chan_value_agree h h' o : (forall x, In x (reach h o) -> hget h' x = hget h x) -> chan_value h' o = chan_value h o.
 Proof.
   intros A. unfold chan_value, get_chan. rewrite (A o (reach_self _ _)).
-  destruct (hget h o) as [[| | | |c]|] eqn:Ho; try reflexivity.
+  destruct (hget h o) as [[| | | |c|pl]|] eqn:Ho; try reflexivity.
   unfold sl_get, get_strs, sl_get_modes, get_modes.
   rewrite (A (sl_arr (hc_users c))) by (eapply reach_ptr; [exact Ho|simpl; auto]).
   rewrite (A (sl_arr (hm_modes (hc_modes c)))) by (eapply reach_ptr; [exact Ho|simpl; auto]).
